@@ -9,6 +9,7 @@ import (
 	"regexp"
 	"sort"
 	"strings"
+	"time"
 
 	"github.com/gopher-fleece/gleece/v2/cmd"
 	"github.com/gopher-fleece/gleece/v2/common"
@@ -111,20 +112,20 @@ type pSite struct {
 }
 
 type pConfig struct {
-	Engine          string     `json:"engine"`
-	OpenAPI         string     `json:"openapi"`
-	Enforce         bool       `json:"enforce"`
-	Schemes         []irScheme `json:"schemes"`
-	DefaultSecurity *irSecComp `json:"defaultSecurity"`
-	PackageName     string     `json:"packageName"`
-	Globs           []string   `json:"globs"`
-	Raw             string     `json:"raw,omitempty"`                      // when set: the config file text, verbatim
-	EnumValidator   bool       `json:"generateEnumValidator,omitempty"`    // experimentalConfig.generateEnumValidator
-	TopLevelEnum    bool       `json:"validateTopLevelOnlyEnum,omitempty"` // experimentalConfig.validateTopLevelOnlyEnum
-	ValidateResp    bool       `json:"validateResponsePayload,omitempty"`  // routesConfig.validateResponsePayload
-	RoutesOut         string   `json:"routesOut,omitempty"` // routesConfig.outputPath when it is not the default
-	SpecOut           string   `json:"specOut,omitempty"`   // specGeneratorConfig.outputPath when it is not the default
-	AllowLoadFailures bool     `json:"allowPackageLoadFailures,omitempty"` // commonConfig.allowPackageLoadFailures, plus a file of package ctl that does not load
+	Engine            string     `json:"engine"`
+	OpenAPI           string     `json:"openapi"`
+	Enforce           bool       `json:"enforce"`
+	Schemes           []irScheme `json:"schemes"`
+	DefaultSecurity   *irSecComp `json:"defaultSecurity"`
+	PackageName       string     `json:"packageName"`
+	Globs             []string   `json:"globs"`
+	Raw               string     `json:"raw,omitempty"`                      // when set: the config file text, verbatim
+	EnumValidator     bool       `json:"generateEnumValidator,omitempty"`    // experimentalConfig.generateEnumValidator
+	TopLevelEnum      bool       `json:"validateTopLevelOnlyEnum,omitempty"` // experimentalConfig.validateTopLevelOnlyEnum
+	ValidateResp      bool       `json:"validateResponsePayload,omitempty"`  // routesConfig.validateResponsePayload
+	RoutesOut         string     `json:"routesOut,omitempty"`                // routesConfig.outputPath when it is not the default
+	SpecOut           string     `json:"specOut,omitempty"`                  // specGeneratorConfig.outputPath when it is not the default
+	AllowLoadFailures bool       `json:"allowPackageLoadFailures,omitempty"` // commonConfig.allowPackageLoadFailures, plus a file of package ctl that does not load
 }
 
 type pProject struct {
@@ -584,12 +585,13 @@ func entitySpans(p pProject, texts map[string]string) []pSpan {
 }
 
 type pDeterm struct {
-	Runs           int  `json:"runs"`
-	RoutesDistinct int  `json:"routesDistinct"` // distinct byte contents of the routes file over the runs
-	Spec30Distinct int  `json:"spec30Distinct"`
-	Spec31Distinct int  `json:"spec31Distinct"`
-	SpecPerEngine  int  `json:"specDistinctAcrossEngines"` // distinct spec bytes when only routesConfig.engine changes
-	DateOnly       bool `json:"dateOnlyDifference"`        // with the date comment enabled, two runs differ at most in that line
+	Runs           int    `json:"runs"`
+	RoutesDistinct int    `json:"routesDistinct"` // distinct byte contents of the routes file over the runs
+	Spec30Distinct int    `json:"spec30Distinct"`
+	Spec31Distinct int    `json:"spec31Distinct"`
+	SpecPerEngine  int    `json:"specDistinctAcrossEngines"` // distinct spec bytes when only routesConfig.engine changes
+	DateOnly       bool   `json:"dateOnlyDifference"`        // with the date comment enabled, two runs differ at most in that line
+	FirstErr       string `json:"_firstErr,omitempty"`       // the first run that failed (diagnosis only)
 }
 
 // interferenceRun: a run of the same engine whose configuration names template extension files
@@ -675,21 +677,21 @@ func firstDiff(a, b string) string {
 
 type projOut struct {
 	MetaChanged string   `json:"metaChanged,omitempty"`
-	Spans     []pSpan  `json:"_spans,omitempty"`
-	ConfigErr string   `json:"configErr,omitempty"`
-	SetupErr  string   `json:"setupErr,omitempty"`
-	GraphErr  string   `json:"graphErr,omitempty"`
-	ValErr    string   `json:"validateErr,omitempty"`
-	Diags     []pDiag  `json:"diags"`
-	RunErr    string   `json:"runErr,omitempty"`
-	ErrText   string   `json:"_errText,omitempty"`
-	DupBlocks int      `json:"dupEntityBlocks"` // entity blocks repeated in the error text
-	IR        *irDoc   `json:"ir,omitempty"`
-	Out       *irOut   `json:"out,omitempty"`
-	Repeats   []string `json:"repeats,omitempty"`     // C19: "same"/"different" canonical IR after each repeated analysis on ONE pipeline
-	Counts    []int    `json:"graphCounts,omitempty"` // number of graph nodes after the first and after each repeated analysis
-	Fresh     string   `json:"fresh,omitempty"`       // brand-new pipeline vs the first analysis
-	Determ    *pDeterm `json:"determinism,omitempty"` // C13
+	Spans       []pSpan  `json:"_spans,omitempty"`
+	ConfigErr   string   `json:"configErr,omitempty"`
+	SetupErr    string   `json:"setupErr,omitempty"`
+	GraphErr    string   `json:"graphErr,omitempty"`
+	ValErr      string   `json:"validateErr,omitempty"`
+	Diags       []pDiag  `json:"diags"`
+	RunErr      string   `json:"runErr,omitempty"`
+	ErrText     string   `json:"_errText,omitempty"`
+	DupBlocks   int      `json:"dupEntityBlocks"` // entity blocks repeated in the error text
+	IR          *irDoc   `json:"ir,omitempty"`
+	Out         *irOut   `json:"out,omitempty"`
+	Repeats     []string `json:"repeats,omitempty"`     // C19: "same"/"different" canonical IR after each repeated analysis on ONE pipeline
+	Counts      []int    `json:"graphCounts,omitempty"` // number of graph nodes after the first and after each repeated analysis
+	Fresh       string   `json:"fresh,omitempty"`       // brand-new pipeline vs the first analysis
+	Determ      *pDeterm `json:"determinism,omitempty"` // C13
 }
 
 func flattenDiags(root string, texts map[string]string, ctrl string, d diagnostics.EntityDiagnostic, isCtrl bool, out *[]pDiag) {
@@ -951,6 +953,9 @@ func runProject(p pProject) (out projOut) {
 			rb, sb, err := fullRun(dir, eng, "3.0.0", true)
 			if err != nil {
 				rset["error:"+firstLines(err.Error(), 1)] = true
+				if d.FirstErr == "" {
+					d.FirstErr = firstLines(err.Error(), 3)
+				}
 				continue
 			}
 			rset[rb], s30[sb] = true, true
@@ -965,6 +970,29 @@ func runProject(p pProject) (out projOut) {
 				rset[rb] = true
 			}
 		}
+		// what is ALREADY at the output path must not matter: a stale file of exactly the same size is overwritten
+		if good, _, err := fullRun(dir, eng, "3.0.0", true); err == nil && len(good) > 8 {
+			stale := []byte(good)
+			for i := len(stale) - 2; i > 0; i-- {
+				if stale[i] >= 'a' && stale[i] <= 'y' {
+					stale[i]++ // same length, another content
+					break
+				}
+			}
+			os.WriteFile(filepath.Join(dir, "dist", "det", "gleece.go"), stale, 0o644)
+			if rb, _, err := fullRun(dir, eng, "3.0.0", true); err == nil {
+				rset[rb] = true
+			}
+		}
+		// neither must the wall clock's zone / date (the date comment is switched off): two runs 26 hours apart
+		oldLocal := time.Local
+		for _, off := range []int{14 * 3600, -12 * 3600} {
+			time.Local = time.FixedZone("rig", off)
+			if rb, _, err := fullRun(dir, eng, "3.0.0", true); err == nil {
+				rset[rb] = true
+			}
+		}
+		time.Local = oldLocal
 		d.RoutesDistinct, d.Spec30Distinct, d.Spec31Distinct = len(rset), len(s30), len(s31)
 		perEngine := map[string]bool{}
 		for _, e := range []string{"gin", "echo", "mux", "chi", "fiber"} {
